@@ -6,11 +6,14 @@ mod gen_fun;
 mod emu;
 mod json;
 mod sem_axcut;
+mod sem_core;
 mod native;
 mod pipeline;
 pub mod props;
 mod rng;
 mod trace;
+mod ty_axcut;
+mod ty_core;
 
 use std::env;
 
@@ -44,7 +47,8 @@ fn real_main() -> i32 {
             let mut stats = std::collections::BTreeMap::<String, u64>::new();
             for seed in seed0..seed0 + n {
                 let mut rng = rng::Rng::new(seed);
-                let prof = gen_fun::Profile::random(&mut rng, gen_fun::EffectMode::Sequenced);
+                let anywhere = std::env::var("EFFECTS").as_deref() == Ok("anywhere");
+                let prof = gen_fun::Profile::random(&mut rng, if anywhere { gen_fun::EffectMode::Anywhere } else { gen_fun::EffectMode::Sequenced });
                 let (p, _feats) = gen_fun::generate(&mut rng, prof.clone());
                 let src = apr::print_prog(&p, apr::Naming::Policy);
                 let nargs = p.defs[p.main].params.len();
@@ -52,6 +56,26 @@ fn real_main() -> i32 {
                 let (refo, _st) = cek::run(&p, &a, &cek::Limits::default());
                 let verdict = (|| -> String {
                     let st = match pipeline::all_stages(&src) { Ok(s) => s, Err(e) => return format!("STAGE {}", e.describe()) };
+                    let ir = sem_core::from_prog(&st.core);
+                    let (c1, cs1) = sem_core::run(&ir, &a, &Default::default());
+                    let irf = sem_core::from_fsprog(&st.focused);
+                    let (c2, cs2) = sem_core::run(&irf, &a, &Default::default());
+                    if anywhere {
+                        if !c1.defined() { return format!("UNDEF-CORE {:?}", c1.end); }
+                        if let Some(d) = trace::diff(&c1, &c2) { return format!("FOCUS {d}"); }
+                        let (o1, _) = sem_axcut::run(&st.shrunk, &a, sem_axcut::Mode::Named, &Default::default());
+                        if let Some(d) = trace::diff(&c1, &o1) { return format!("SHRINK {d}"); }
+                        let (o2, _) = sem_axcut::run(&st.linear, &a, sem_axcut::Mode::Positional, &Default::default());
+                        if let Some(d) = trace::diff(&c1, &o2) { return format!("LIN {d}"); }
+                        if refo.defined() { if let Some(d) = trace::diff(&refo, &c1) { return format!("CEKDIFF(expected sometimes) {d}"); } }
+                        return "OK".into();
+                    }
+                    if refo.defined() {
+                        if let Some(d) = trace::diff(&refo, &c1) { return format!("CORE {d}"); }
+                        if let Some(d) = trace::diff(&refo, &c2) { return format!("FSCORE {d}"); }
+                        if cs2.arg_frames > 0 { return format!("FSCORE-FRAMES {}", cs2.arg_frames); }
+                        let _ = cs1;
+                    }
                     let (o1, _) = sem_axcut::run(&st.shrunk, &a, sem_axcut::Mode::Named, &Default::default());
                     let (o2, _) = sem_axcut::run(&st.linear, &a, sem_axcut::Mode::Positional, &Default::default());
                     if refo.defined() {
